@@ -9,7 +9,31 @@ def caseOf (c : String) : Option UCase :=
 
 /-- mode `model`: `profile TAB case` ↦ observation of the model;
     mode `oracle`: `profile TAB case TAB observation` ↦ verdict of the C05 reference checker. -/
+def isE2E (c : String) : Bool := c.startsWith "(e2e "
+
+def ecaseOf (c : String) : Option ECase := (parse c).bind ecaseOf?
+
+def handlerE (mode : String) (line : String) : String :=
+  match mode, line.splitOn "\t" with
+  | "model", [p, c] =>
+      match profileOf? p, ecaseOf c with
+      | some prof, some e => toStr (runECase prof e)
+      | none, _ => "(bad-line)"
+      | _, none => "(bad-case)"
+  | "oracle", [p, c, o] =>
+      match profileOf? p, ecaseOf c, parse o with
+      | some _, some e, some obs => oracleE e obs
+      | none, _, _ => "(bad-line)"
+      | _, none, _ => if o == "(bad-case)" then "ok" else "fail clause=bad-case-accepted-by-harness"
+      | _, _, none => "fail clause=unparsable-observation"
+  | "stats", [_, c, o] =>
+      match ecaseOf c, parse o with
+      | some e, some obs => statsE e obs
+      | _, _ => "unparsable=1"
+  | _, _ => "(bad-line)"
+
 def handler (mode : String) (line : String) : String :=
+  if (line.splitOn "\t").any isE2E then handlerE mode line else
   match mode, line.splitOn "\t" with
   | "model", [p, c] =>
       match profileOf? p, caseOf c with
